@@ -187,6 +187,11 @@ type CallResult struct {
 	StatsDigest string    `json:"stats_digest,omitempty"` // the caller's Stats.ChoiceAltCnt after the parse
 	// OptsModified: the call wrote into the spare capacity of the option slice it was given.
 	OptsModified bool           `json:"opts_modified,omitempty"`
+	// InputTailModified: the call wrote behind the input slice it was given (the
+	// slice is a window on a larger buffer of the caller's).
+	InputTailModified bool `json:"input_tail_modified,omitempty"`
+	val               any  // the value as returned, kept (as a caller keeps it)
+	err               error
 	Events       []kernel.Event `json:"events,omitempty"`
 	Injected     []InjectedInfo `json:"injected,omitempty"`
 	ctx          *kernel.Ctx
@@ -215,10 +220,23 @@ func (p *Parser) Exec(c *Call, cl *simrt.Client) *CallResult {
 	ctx := kernel.NewCtx(&plan)
 	start := cl.Steps
 	simrt.Yield(simrt.YEntry)
-	// the input belongs to this execution: a block may write to it
-	val, err, esc, cnt := p.Parse(c.Opts.FileName(), append([]byte(nil), c.Input...), &c.Opts, ctx)
+	// the input belongs to this execution (a block may write to it); it is a
+	// window on a larger buffer, as a record inside a read buffer is: what lies
+	// behind it is the caller's
+	buf := make([]byte, len(c.Input)+8)
+	copy(buf, c.Input)
+	for i := len(c.Input); i < len(buf); i++ {
+		buf[i] = 0xA5
+	}
+	val, err, esc, cnt := p.Parse(c.Opts.FileName(), buf[:len(c.Input)], &c.Opts, ctx)
+	tailModified := false
+	for i := len(c.Input); i < len(buf); i++ {
+		if buf[i] != 0xA5 {
+			tailModified = true
+		}
+	}
 	simrt.Yield(simrt.YExit)
-	r := &CallResult{ctx: ctx, ExprCnt: cnt, Steps: cl.Steps - start, Aborted: cl.Aborted, Overflow: ctx.Overflow, Backward: ctx.Backward, Nested: ctx.NestedRuns, StatsDigest: ctx.StatsDigest, OptsModified: ctx.OptsModified}
+	r := &CallResult{ctx: ctx, ExprCnt: cnt, Steps: cl.Steps - start, Aborted: cl.Aborted, Overflow: ctx.Overflow, Backward: ctx.Backward, Nested: ctx.NestedRuns, StatsDigest: ctx.StatsDigest, OptsModified: ctx.OptsModified, InputTailModified: tailModified}
 	if gs := ctx.GlobalStoreSeen(); gs != nil && !cl.Aborted && !ctx.Overflow && len(ctx.Events) > 0 {
 		// entries of globalStore are never reverted: not when Parse returns either
 		// (the map may have been returned by an action, or kept by a block)
@@ -227,8 +245,10 @@ func (p *Parser) Exec(c *Call, cl *simrt.Client) *CallResult {
 		}
 	}
 	r.Value = kernel.Render(val)
+	r.val = val
 	r.ValueNil = val == nil
 	r.ErrNil = err == nil
+	r.err = err
 	if esc != nil {
 		r.Escaped = kernel.Render(esc)
 		if _, ok := esc.(error); ok {
@@ -269,6 +289,18 @@ func (p *Parser) Exec(c *Call, cl *simrt.Client) *CallResult {
 	}
 	// the kernel's counter lives in globalStore and must equal the number of events
 	return r
+}
+
+// ValueNow renders the returned value as it is now: a caller keeps what Parse
+// returned, and later calls have no business changing it.
+func (r *CallResult) ValueNow() string { return kernel.Render(r.val) }
+
+// ErrTextNow renders the returned error as it reads now.
+func (r *CallResult) ErrTextNow() string {
+	if r.err == nil {
+		return ""
+	}
+	return r.err.Error()
 }
 
 // Solo runs one call alone on fresh pools.
